@@ -51,6 +51,8 @@ type Worker struct {
 	sinceCkpt                 int
 	lastCase                  int
 	viols                     int
+	unlisted                  int // violations not covered by a listed known finding
+	known                     []fw.Finding
 }
 
 // Case is the context handed to Engine.Run.
@@ -116,6 +118,9 @@ func Main() {
 			os.Exit(3)
 		}
 	}
+	if kf := os.Getenv("VERIF_KNOWN_FILE"); kf != "" {
+		w.known, _ = fw.LoadFindings(kf)
+	}
 	debug.SetTraceback("all")
 	if e.Init != nil {
 		e.Init(w)
@@ -129,6 +134,11 @@ func Main() {
 		w.sinceCkpt++
 		if w.sinceCkpt >= 200 {
 			w.flush("ckpt")
+		}
+		if w.unlisted >= 12 && !w.Replay {
+			// the verdict of this chunk is decided; do not burn time on the rest
+			w.tags["fail-fast:cases-not-run"] += *hi - i - 1
+			break
 		}
 	}
 	w.flush("done")
@@ -244,6 +254,9 @@ func (c *Case) WantSample() bool { return c.W.samples < maxSamplesPerWorker }
 // (stable across seeds for the same defect), input the witness.
 func (c *Case) Violation(sig, detail string, input interface{}) {
 	c.W.viols++
+	if fw.MatchKnown(c.W.known, c.W.Prop, sig) == nil {
+		c.W.unlisted++
+	}
 	c.W.write(&fw.Rec{T: "viol", Case: c.Index, Sig: sig, Detail: detail, Input: raw(input)})
 }
 
